@@ -13,6 +13,9 @@
 //	                                 span's wall-clock ArrivalTime is back-dated by <age> ns (CacheImpact
 //	                                 reads the wall clock, not the injected clock)
 //	tick <w>                         CollectorWorker.sendExpiredTracesInCache(clock.Now())
+//	looptick <w> <ns>                the REAL collect() loop of worker w handles a send tick: the worker is
+//	                                 released and blocks in its select, the clock advances by <ns> while it is
+//	                                 idle, its ticker fires, the worker is parked again
 //	eject <w> <bytes>                CollectorWorker.sendTracesEarly(bytes)
 //	alloc <delta>                    InMemCollector.checkAlloc with MaxAlloc := heap reading - delta; the
 //	                                 harness plays the workers' `sendEarly` select branch
@@ -24,11 +27,13 @@ package main
 import (
 	"fmt"
 	"reflect"
+	"runtime"
 	rtmetrics "runtime/metrics"
 	"sort"
 	"strconv"
 	"strings"
 	"sync"
+	"sync/atomic"
 	"time"
 
 	"github.com/jonboulle/clockwork"
@@ -51,6 +56,9 @@ type comp struct{}
 var epoch = time.Date(2024, 1, 1, 0, 0, 0, 0, time.UTC)
 
 const barrierID = "verif-barrier"
+
+// the workers' own tickers are recognised by this period and fired by the harness only (`looptick`)
+const sendTickerMark = 1000 * time.Hour
 
 // ---------------------------------------------------------------------------- recording transmission
 
@@ -85,6 +93,41 @@ func (t *recTx) take() []sentSpan {
 	return s
 }
 
+// hclock is the injected clock: a clockwork.FakeClock whose worker tickers (recognised by the
+// SendTicker period) are channels the harness fires itself, and which counts Now() calls so that the
+// harness can tell when a released worker has started its next loop iteration (collect() reads
+// `startTime := Clock.Now()` at the top of every iteration, before it blocks in select).
+type hclock struct {
+	*clockwork.FakeClock
+	period   time.Duration
+	mu       sync.Mutex
+	tickers  []*hticker
+	nowCalls atomic.Int64
+}
+
+type hticker struct{ c chan time.Time }
+
+func (t *hticker) Chan() <-chan time.Time { return t.c }
+func (t *hticker) Reset(time.Duration)    {}
+func (t *hticker) Stop()                  {}
+
+func (c *hclock) Now() time.Time {
+	t := c.FakeClock.Now()
+	c.nowCalls.Add(1)
+	return t
+}
+
+func (c *hclock) NewTicker(d time.Duration) clockwork.Ticker {
+	if d != c.period {
+		return c.FakeClock.NewTicker(d)
+	}
+	t := &hticker{c: make(chan time.Time)} // unbuffered: a tick is delivered only to a worker sitting in select
+	c.mu.Lock()
+	c.tickers = append(c.tickers, t)
+	c.mu.Unlock()
+	return t
+}
+
 type nullHealth struct{}
 
 func (nullHealth) Register(string, time.Duration) {}
@@ -95,12 +138,13 @@ func (nullHealth) Ready(string, bool)             {}
 
 type rig struct {
 	conf    *config.MockConfig
-	clock   *clockwork.FakeClock
+	clock   *hclock
 	tx      *recTx
 	met     *metrics.MockMetrics
 	sf      *sample.SamplerFactory
 	coll    *collect.InMemCollector
-	release func()
+	release []func() // per worker: un-park
+	tickOf  map[int]*hticker
 	n       int
 }
 
@@ -108,7 +152,7 @@ func newRig(tt, sd int64, limit, maxExp uint64, workers int) *rig {
 	conf := &config.MockConfig{
 		GetTracesConfigVal: config.TracesConfig{
 			// ticks are explicit operations; the workers' own tickers must never fire
-			SendTicker:       config.Duration(1000 * time.Hour),
+			SendTicker:       config.Duration(sendTickerMark),
 			SendDelay:        config.Duration(sd),
 			TraceTimeout:     config.Duration(tt),
 			SpanLimit:        uint(limit),
@@ -132,7 +176,7 @@ func newRig(tt, sd int64, limit, maxExp uint64, workers int) *rig {
 		TraceIdFieldNames:    []string{"trace.trace_id"},
 		ParentIdFieldNames:   []string{"trace.parent_id"},
 	}
-	clock := clockwork.NewFakeClockAt(epoch)
+	clock := &hclock{FakeClock: clockwork.NewFakeClockAt(epoch), period: sendTickerMark}
 	tx := &recTx{barrier: make(chan struct{}, 1)}
 	met := &metrics.MockMetrics{}
 	met.Start()
@@ -163,13 +207,65 @@ func newRig(tt, sd int64, limit, maxExp uint64, workers int) *rig {
 		panic(err)
 	}
 	collect.VerifDeadlineStopMonitor(c)
-	rel := collect.VerifDeadlinePark(c)
+	n := collect.VerifDeadlineNumWorkers(c)
+	rel := make([]func(), n)
+	for w := 0; w < n; w++ {
+		rel[w] = collect.VerifDeadlineParkWorker(c, w)
+	}
 	return &rig{conf: conf, clock: clock, tx: tx, met: met, sf: sf, coll: c, release: rel,
-		n: collect.VerifDeadlineNumWorkers(c)}
+		tickOf: map[int]*hticker{}, n: n}
+}
+
+// loopTick lets the REAL collect() loop of worker w handle one send tick after an idle period d:
+// the worker is released and the harness waits (bounded) until it has started its next iteration
+// (read its startTime) and sits in select; only then the fake clock moves by d (deadlines fall while
+// the worker is blocked) and the worker's ticker fires; re-parking the worker completes only after
+// the tick branch has run to its end.
+func (g *rig) loopTick(w int, d time.Duration) {
+	before := g.clock.nowCalls.Load()
+	g.release[w]()
+	deadline := time.Now().Add(20 * time.Second)
+	for spin := 0; g.clock.nowCalls.Load() == before; spin++ {
+		if spin < 2000 {
+			runtime.Gosched()
+			continue
+		}
+		if time.Now().After(deadline) {
+			panic("looptick: released worker did not start its next loop iteration")
+		}
+		time.Sleep(20 * time.Microsecond)
+	}
+	g.clock.Advance(d)
+	now := g.clock.FakeClock.Now()
+	if tk, ok := g.tickOf[w]; ok {
+		select {
+		case tk.c <- now:
+		case <-time.After(20 * time.Second):
+			panic("looptick: worker did not take its tick")
+		}
+	} else {
+		// only worker w is running, so only its ticker has a receiver: find out which one it is
+		g.clock.mu.Lock()
+		tks := append([]*hticker(nil), g.clock.tickers...)
+		g.clock.mu.Unlock()
+		cases := make([]reflect.SelectCase, 0, len(tks)+1)
+		for _, tk := range tks {
+			cases = append(cases, reflect.SelectCase{Dir: reflect.SelectSend, Chan: reflect.ValueOf(tk.c), Send: reflect.ValueOf(now)})
+		}
+		cases = append(cases, reflect.SelectCase{Dir: reflect.SelectRecv, Chan: reflect.ValueOf(time.After(20 * time.Second))})
+		k, _, _ := reflect.Select(cases)
+		if k == len(tks) {
+			panic("looptick: no worker took the tick")
+		}
+		g.tickOf[w] = tks[k]
+	}
+	g.release[w] = collect.VerifDeadlineParkWorker(g.coll, w)
 }
 
 func (g *rig) close() {
-	g.release()
+	for _, r := range g.release {
+		r()
+	}
 	g.coll.Stop()
 	g.sf.Stop()
 }
@@ -496,9 +592,9 @@ func (comp) Gen(r *kit.Rng, maxLen int, tier string) kit.Case {
 			ageFlip()
 			continue
 		}
-		weights := []int{45, 22, 20, 9, 1}
+		weights := []int{45, 22, 20, 9, 1, 5}
 		if backlog && i < n/2 {
-			weights = []int{80, 10, 4, 5, 1}
+			weights = []int{80, 10, 4, 5, 1, 2}
 		}
 		switch r.Pick(weights...) {
 		case 0:
@@ -549,6 +645,28 @@ func (comp) Gen(r *kit.Rng, maxLen int, tier string) kit.Case {
 					}
 				}
 			}
+		case 5:
+			// loop-driven tick after an idle period during which (mostly) a pending deadline falls
+			var d int64
+			ds := pendingDeadlines()
+			var fut []int64
+			for _, x := range ds {
+				if x >= now {
+					fut = append(fut, x-now)
+				}
+			}
+			if len(fut) > 0 && r.Chance(75) {
+				d = fut[r.Intn(len(fut))] + int64(r.Intn(3)) - 1
+			} else {
+				d = pick64(r, 0, 1, scale/2, scale, scale+1, effTT, effSD)
+			}
+			if d < 0 {
+				d = 0
+			}
+			now += d
+			mark := len(ops)
+			tick(w)
+			ops[mark] = fmt.Sprintf("looptick %d %d", w, d)
 		case 4:
 			ops = append(ops, fmt.Sprintf("alloc %d", pick64(r, -1_000_000_000, 0, 1, 100, 10_000, 1_000_000, 1<<40)))
 		}
@@ -643,6 +761,17 @@ func (r *runner) Do(op []string) (string, bool) {
 			return "bad-worker", true
 		}
 		collect.VerifDeadlineTick(g.coll, w, g.clock.Now())
+		g.barrier()
+		s, ids := sentStr(g.tx.take())
+		kit.Ext("taken = %s", intList(ids))
+		return fmt.Sprintf("at=%d sent=%s left=%s", g.now(), s, g.left(w)), true
+	case "looptick":
+		w, _ := strconv.Atoi(op[1])
+		d, _ := strconv.ParseInt(op[2], 10, 64)
+		if w < 0 || w >= g.n {
+			return "bad-worker", true
+		}
+		g.loopTick(w, time.Duration(d))
 		g.barrier()
 		s, ids := sentStr(g.tx.take())
 		kit.Ext("taken = %s", intList(ids))
